@@ -427,7 +427,8 @@ class DynamicResource(Resource):
 
             part = _requote_path(part)
             formatter += part
-            pattern += re.escape(part)
+            # Request paths are matched in their path_safe form.
+            pattern += re.escape(_path_safe(part))
 
         try:
             compiled = re.compile(pattern)
@@ -479,6 +480,8 @@ class PrefixResource(AbstractResource):
         super().__init__(name=name)
         self._prefix = _requote_path(prefix)
         self._prefix2 = self._prefix + "/"
+        # Request paths are matched in their path_safe form.
+        self._prefix_safe = _path_safe(self._prefix)
 
     @property
     def canonical(self) -> str:
@@ -490,6 +493,7 @@ class PrefixResource(AbstractResource):
         assert len(prefix) > 1
         self._prefix = prefix + self._prefix
         self._prefix2 = self._prefix + "/"
+        self._prefix_safe = _path_safe(self._prefix)
 
     def raw_match(self, prefix: str) -> bool:
         return False
@@ -606,14 +610,15 @@ class StaticResource(PrefixResource):
         norm_path = os.path.normpath(path)
         if IS_WINDOWS:
             norm_path = norm_path.replace("\\", "/")
-        if not norm_path.startswith(self._prefix2) and norm_path != self._prefix:
+        prefix = self._prefix_safe
+        if not norm_path.startswith(prefix + "/") and norm_path != prefix:
             return None, set()
 
         allowed_methods = self._allowed_methods
         if method not in allowed_methods:
             return None, allowed_methods
 
-        match_dict = {"filename": _unquote_path_safe(path[len(self._prefix) + 1 :])}
+        match_dict = {"filename": _unquote_path_safe(path[len(prefix) + 1 :])}
         return (UrlMappingMatchInfo(match_dict, self._routes[method]), allowed_methods)
 
     def __len__(self) -> int:
@@ -1085,7 +1090,8 @@ class UrlDispatcher(AbstractRouter, Mapping[str, AbstractResource]):
             # the index key will be `/core` since index is based on the
             # url parts split by `/`
             index_key = index_key.partition("{")[0].rpartition("/")[0]
-        return index_key.rstrip("/") or "/"
+        # The index is looked up with parts of the request's path_safe.
+        return _path_safe(index_key.rstrip("/") or "/")
 
     def index_resource(self, resource: AbstractResource) -> None:
         """Add a resource to the resource index."""
@@ -1231,6 +1237,11 @@ class UrlDispatcher(AbstractRouter, Mapping[str, AbstractResource]):
 
 def _quote_path(value: str) -> str:
     return URL.build(path=value, encoded=False).raw_path
+
+
+def _path_safe(value: str) -> str:
+    # The decoded form (except %2F and %25) of a quoted path; same as URL.path_safe.
+    return URL.build(path=value, encoded=True).path_safe
 
 
 def _unquote_path_safe(value: str) -> str:
